@@ -211,7 +211,12 @@ impl KeyId {
     /// Return the first 8 hex digits of the key id
     pub fn prefix(&self) -> String {
         assert!(self.0.len() >= 8);
-        self.0[0..8].to_string()
+        // key ids read from untrusted metadata are not necessarily ASCII:
+        // never slice inside a multi-byte character
+        match self.0.get(0..8) {
+            Some(prefix) => prefix.to_string(),
+            None => self.0.chars().take(8).collect(),
+        }
     }
 }
 
